@@ -235,6 +235,22 @@ pub fn run(ctx: &mut Ctx) {
             }
         }
     }
+    // the same at the bottom of the order (0.0.0-0, its successor, other prereleases of 0.0.0,
+    // 0.0.0, 0.0.1-0): where "nothing is lower" shortcuts live
+    ctx.stratum("Z-zero-chain-table-and-pairs", true);
+    let ztiv = table_intervals(&zero_chain());
+    for a in &ztiv {
+        if ctx.take() {
+            if let Some(op) = operand_from_text(&iv_text(a)) {
+                judge(ctx, &op);
+            }
+            for b in &ztiv {
+                if let Some(op) = operand_from_text(&format!("{} || {}", iv_text(a), iv_text(b))) {
+                    judge(ctx, &op);
+                }
+            }
+        }
+    }
     ctx.stratum("T3-three-alternatives-all-orders", false);
     let n3 = ctx.tier.n(3_000, 300_000);
     for i in 0..n3 {
